@@ -2,7 +2,7 @@
    Every client loop takes an ARBITRARY list of layouts (one per iteration / regrouping round):
    the layout may change between the partial requests of one call. `sorted st` is the store
    invariant (established by [] and preserved by every mutating operation, see the _sorted parts). *)
-From Verif Require Import RawKV.Model RawKV.ProofsStore RawKV.ProofsLoops RawKV.ProofsBatch RawKV.ProofsRounds RawKV.ProofsCas RawKV.ProofsWire RawKV.ProofsPlans RawKV.ProofsTop RawKV.Sequence RawKV.ProofsReg RawKV.ProofsFam.
+From Verif Require Import RawKV.Model RawKV.ProofsStore RawKV.ProofsLoops RawKV.ProofsBatch RawKV.ProofsRounds RawKV.ProofsCas RawKV.ProofsWire RawKV.ProofsPlans RawKV.ProofsTop RawKV.Sequence RawKV.ProofsReg RawKV.ProofsFam RawKV.Stream RawKV.ProofsStream.
 
 (* get / put (with ttl) / delete: the map laws; the ttl never influences what Get returns *)
 Theorem C11_get_put_delete : forall st k v ttl k',
@@ -247,6 +247,41 @@ Theorem C11_checksum_v2 : forall digest pfx st Ls s e res,
 Proof. exact cksum_v2. Qed.
 Print Assumptions C11_checksum_v2.
 
+(* REQUEST STREAMS (what the gate sees, predicted by the model and compared request by request).
+   Scan: the result is exactly the concatenation of the answers to the stream (no post-processing); every
+   request carries the caller's end key untouched and limit = what is still missing (>= 1); starts move
+   strictly upwards, each one the end of the region that served the previous request *)
+Theorem C11_scan_stream : forall st Ls s e limit res,
+  scan st Ls s e limit = Some res ->
+  res = scan_replay st Ls (scan_reqs st Ls s e limit 0) /\
+  scan_stream_ok st Ls (scan_reqs st Ls s e limit 0) s e limit 0.
+Proof. exact c11_scan_stream. Qed.
+Print Assumptions C11_scan_stream.
+
+Theorem C11_reverse_scan_stream : forall st Ls s e limit res,
+  rscan st Ls s e limit = Some res -> res = rscan_replay st Ls (rscan_reqs st Ls s e limit 0).
+Proof. exact c11_reverse_scan_stream. Qed.
+Print Assumptions C11_reverse_scan_stream.
+
+(* DeleteRange: the served requests tile a prefix of the range (contiguous from s, each non-empty, an unbounded
+   one is the last) and the store left behind — complete or interrupted — is those requests applied in order *)
+Theorem C11_delete_range_stream : forall st Ls s e,
+  tiles (drange_reqs Ls s e) s /\
+  let st' := fold_left (fun x r => srv_delete_range x (fst r) (snd r)) (drange_reqs Ls s e) st in
+  match drange_run st Ls s e with DrDone x => x = st' | DrFailed x _ => x = st' | DrFuel => True end.
+Proof. exact c11_delete_range_stream. Qed.
+Print Assumptions C11_delete_range_stream.
+
+(* batches on the wire: all keys of a sub-batch lie in ONE region of the grouping layout; a key batch has at
+   most 513 keys; a put batch was below 16 KB before its last pair *)
+Theorem C11_batches_well_formed :
+  (forall L keys, Forall (fun b => Forall (fun k => loc_lo L k = fst (fst b)) (snd b)) (sub_batches key_chunks L keys)) /\
+  (forall kvs L keys, Forall (fun b => Forall (fun k => loc_lo L k = fst (fst b)) (snd b)) (sub_batches (put_chunks kvs) L keys)) /\
+  (forall ks, Forall (fun b => (length b <= 513)%nat) (key_chunks ks)) /\
+  (forall kvs ks, Forall (fun b => b <> [] -> weight (pair_size kvs) (removelast b) < raw_batch_put_size) (put_chunks kvs ks)).
+Proof. exact c11_batches_well_formed. Qed.
+Print Assumptions C11_batches_well_formed.
+
 (* ---------------------------------------------------------------- non-vacuity *)
 Definition ex_store : store :=
   srv_batch_put [] [([97], mkEntry [1] 0); ([98], mkEntry [2] 5); ([98; 0], mkEntry [] 0);
@@ -326,4 +361,11 @@ Proof. vm_compute. reflexivity. Qed.
 Example ex_register :
   fst (store_run ex_store [([101], RegCas None [1]); ([97], RegGet); ([101], RegCas None [2]); ([101], RegDel); ([101], RegGet)])
   = [ResCas None true; ResVal (Some [9]); ResCas (Some [1]) false; ResUnit; ResVal None].
+Proof. vm_compute. reflexivity. Qed.
+Example ex_scan_stream :
+  scan_reqs ex_store [[[98]; [99]]; [[98; 0]; [99]]; [[99]]] [97] [100] 3 0
+  = [([97], [100], 3%nat); ([98], [100], 2%nat); ([98; 0], [100], 1%nat)].
+Proof. vm_compute. reflexivity. Qed.
+Example ex_drange_stream :
+  drange_reqs [Some [[98]]; Some [[98; 0]; [99]]; None] [97; 0] [] = [([97; 0], [98]); ([98], [98; 0])].
 Proof. vm_compute. reflexivity. Qed.
